@@ -90,7 +90,7 @@ def execute(job):
         if q["down"]:
             argv += ["--downsample", str(q["down"])]
         if q["mf"]:
-            argv += ["--motion_filter", repr(0.5 * q["mf"] * u), "100" if q["mf"] == 2001 else "1000"]
+            argv += ["--motion_filter", repr(0.5 * (q["mf"] % 10000) * u), "100" if q["mf"] == 2001 or q["mf"] >= 10000 else "1000"]
         if q["merge"]:
             argv += ["--merge"]
         if q["toff"]:
@@ -232,6 +232,8 @@ def execute_metric(job):
         # EuRoC stamps are integer nanoseconds held in a float64 (up to 128 ns off the dyadic grid): keep crop bounds off the stamps there;
         # for TUM the bound is exactly a stamp (inclusive on both sides)
         slack = 0.25 * clock.dt if c["fmt"] == "euroc" else 0.0
+        if q["mf"]:
+            argv += ["--motion_filter", repr(0.5 * (q["mf"] % 10000) * u), "100" if q["mf"] == 2001 or q["mf"] >= 10000 else "1000"]
         if q["lo"] != -1000:
             argv += ["--t_start", repr(float(clock.g(q["lo"])) - slack)]
         if q["hi"] != 1000:
